@@ -4,7 +4,7 @@ CONSTANTS
   NP = 7
   NC = 4
   NPol = 4
-  InitCuts = {2,3,4,5}
+  InitCuts = {2,3,4,5,6}
   Canon = FALSE
   Older = "lt"
   Emit = TRUE
